@@ -412,7 +412,7 @@ def nanmean(x, axis=None, keepdims=False, dtype=None, out=None):
 
     with np.errstate(invalid="ignore", divide="ignore"):
         if num.ndim:
-            return np.true_divide(num, den, casting="unsafe")
+            return np.true_divide(num, den, casting="unsafe").astype(dtype if dtype is not None else x.dtype)
         return (num / den).astype(dtype if dtype is not None else x.dtype)
 
 
